@@ -59,6 +59,27 @@ def _lib_exc():
 
 BUILTIN_EXC.update(_lib_exc())
 
+
+class Xq9EmptyStr(Exception):
+    def __str__(self) -> str:
+        return ''
+
+
+class Xq9BadRepr(Exception):
+    def __str__(self) -> str:
+        raise RuntimeError('Zq7_marker_str_failed')
+
+    def __repr__(self) -> str:
+        raise RuntimeError('Zq7_marker_repr_failed')
+
+
+# exceptions without a message, with an empty / multi-line / unprintable rendering
+BUILTIN_EXC.update({
+    'ValueErrorEmpty': lambda m: ValueError(), 'KeyErrorEmpty': lambda m: KeyError(), 'AssertionErrorEmpty': lambda m: AssertionError(),
+    'ValueErrorBlank': lambda m: ValueError(''), 'Xq9EmptyStr': lambda m: Xq9EmptyStr(m),
+    'ValueErrorMultiline': lambda m: ValueError(m + '\nsecond line\n\nfourth'), 'Xq9BadRepr': lambda m: Xq9BadRepr(m),
+})
+
 TYPED_CODE = 70001
 TYPED_MESSAGE = 'probe typed error'
 
@@ -66,6 +87,21 @@ TYPED_MESSAGE = 'probe typed error'
 class ProbeTypedError(pjrpc.exceptions.JsonRpcError):
     code = TYPED_CODE
     message = TYPED_MESSAGE
+
+
+CTOR_CODE = 70002
+CTOR_MESSAGE = 'probe ctor error'
+
+
+class ProbeCtorError(pjrpc.exceptions.JsonRpcError):
+    """An application error with its own constructor signature (no class-level code, so it stays out of the client-side
+    registry of typed errors)."""
+
+    def __init__(self, uid: Any, *, hint: str = 'h'):
+        super().__init__(code=CTOR_CODE, message=CTOR_MESSAGE, data={'uid': uid, 'hint': hint})
+
+
+LIB_ERRORS = ('ParseError', 'InvalidRequestError', 'MethodNotFoundError', 'InvalidParamsError', 'InternalError', 'ServerError')
 
 
 class CtorFailed(Exception):
@@ -142,6 +178,17 @@ def make_methods(log: Log, is_async: bool) -> Dict[str, Callable[..., Any]]:
         log.calls.append(('boom', (kind, marker), {}))
         _raise_exc(kind, marker)
 
+    def typedctor(uid=0):
+        log.calls.append(('typedctor', (uid,), {}))
+        raise ProbeCtorError(uid)
+
+    def raiselib(name, data=ABSENT):
+        # a method that raises one of the library's own protocol error CLASSES (a gateway re-raising an upstream error)
+        log.calls.append(('raiselib', (name, data), {}))
+        if name not in LIB_ERRORS:
+            raise KeyError('Zq7_marker_nolib')
+        raise getattr(pjrpc.exceptions, name)(data=UNSET if data == ABSENT else data)
+
     def ctxm(ctx, a=0):
         log.calls.append(('ctxm', (a,), {}))
         log.contexts.append(ctx)
@@ -159,7 +206,12 @@ def make_methods(log: Log, is_async: bool) -> Dict[str, Callable[..., Any]]:
                 return ['fac2', x, y, z]
         return handler
 
-    fac = dict(fac1=factory(1), fac2=factory(2))
+    def unenc(what='set'):
+        # returns something the JSON encoder refuses: outside the corpus the model judges (used as a history step by C13)
+        log.calls.append(('unenc', (what,), {}))
+        return {'set': {1, 2}, 'object': object(), 'bytes': b'x', 'nested': {'k': [object()]}}.get(what, {1})
+
+    fac = dict(fac1=factory(1), fac2=factory(2), typedctor=typedctor, raiselib=raiselib, unenc=unenc)
 
     def slow(v, ticks=0):
         log.calls.append(('slow', (v, ticks), {}))
@@ -293,7 +345,7 @@ def make_view(log: Log, is_async: bool):
     return ProbeView
 
 
-METHOD_NAMES = ('js_checked', 'js_loose', 'slowfail', 'byid', 'wrapped', 'whoami', 'ctxp', 'slow', 'fac1', 'fac2', 'ok', 'noargs', 'echo', 'kwonly', 'rpcerr', 'typed', 'boom', 'ctxm', 'view.vm')
+METHOD_NAMES = ('js_checked', 'js_loose', 'slowfail', 'byid', 'wrapped', 'whoami', 'ctxp', 'slow', 'fac1', 'fac2', 'ok', 'noargs', 'echo', 'kwonly', 'rpcerr', 'typed', 'boom', 'ctxm', 'view.vm', 'typedctor', 'raiselib')
 
 
 def build_registry(log: Log, coroutines: bool) -> 'pjrpc.server.MethodRegistry':
